@@ -60,9 +60,82 @@ func genMultiTask(r *kern.Rng, maxLen int) MultiTask {
 	return MultiTask{R: sc}
 }
 
+// genSetupHeavyTask: an instance that goes through many short streams (Reset
+// cycles), most of them with a preset dictionary of its own: the time is
+// spent in constructors, Reset, header emission/parsing and table set-up,
+// which is where anything shared between instances (caches, pools, lazily
+// built tables) would sit.
+func genSetupHeavyTask(r *kern.Rng, pkg string) MultiTask {
+	dictSpec := func() *scen.DataSpec {
+		d := scen.DataSpec{Kind: r.PickS("rand", "text", "alpha"), Seed: r.Uint64(), P1: 16, Len: r.Pick(16, 300, 5000, 32768, 40000)}
+		return &d
+	}
+	mkW := func(maxLen int) *scen.WScen {
+		var w *scen.WScen
+		if pkg == "flate" {
+			w = genFlateW(r, maxLen)
+			if r.Pct(60) {
+				w.Ctor, w.Dict = "dict", dictSpec()
+			}
+		} else {
+			w = genContainerW(r, pkg, maxLen)
+			if pkg == "zlib" && r.Pct(75) {
+				w.Ctor, w.Dict = "dict", dictSpec()
+			}
+		}
+		w.Guard = false
+		return w
+	}
+	if r.Pct(55) {
+		w := mkW(6000)
+		cycles := 5 + r.Intn(25)
+		per := w.Data.Len/cycles + 1
+		w.Ops = nil
+		for c := 0; c < cycles; c++ {
+			w.Ops = append(w.Ops, scen.WOp{K: "w", N: 1 + r.Intn(per)})
+			if r.Pct(20) {
+				w.Ops = append(w.Ops, scen.WOp{K: "f"})
+			}
+			w.Ops = append(w.Ops, scen.WOp{K: "c"})
+			if c < cycles-1 {
+				w.Ops = append(w.Ops, scen.WOp{K: "r"})
+			}
+		}
+		return MultiTask{W: w}
+	}
+	stream := func() (scen.InputSpec, *scen.DataSpec) {
+		w := mkW(400)
+		w.Ops = GenOps(r, w.Data.Len, 0, 5)
+		return scen.InputSpec{Parts: []scen.StreamSpec{{Enc: "std", W: w}}}, w.Dict
+	}
+	sc := &scen.RScen{Pkg: pkg}
+	sc.In, sc.Dict = stream()
+	for i := 3 + r.Intn(12); i > 0; i-- {
+		p := scen.Prior{Take: -1, Close: r.Pct(50)}
+		p.In, p.Dict = stream()
+		sc.Prior = append(sc.Prior, p)
+	}
+	sc.Src = genSrc(r, false)
+	sc.Del = genDelivery(r)
+	sc.Reads = genReads(r)
+	return MultiTask{R: sc}
+}
+
 func (c17) Gen(r *kern.Rng, tier string, idx int) *Trace {
 	n := 2 + r.Intn(7)
 	ms := &MultiScen{}
+	if r.Pct(30) {
+		n = 4 + r.Intn(5)
+		pkg := r.PickS("zlib", "zlib", "flate", "gzip")
+		for i := 0; i < n; i++ {
+			ms.Tasks = append(ms.Tasks, genSetupHeavyTask(r, pkg))
+		}
+		if r.Pct(40) {
+			ms.Tasks[1] = ms.Tasks[0]
+		}
+		return &Trace{Property: "C17", Family: "M: instances cycling through many short streams (own dictionaries)", Multi: ms,
+			Sched: kern.SchedSpec{Policy: r.PickS("rand", "rand", "rr"), Seed: r.Uint64(), SwitchPct: r.Pick(20, 50, 90, 100)}}
+	}
 	maxLen := r.Pick(2000, 20000, 100000)
 	for i := 0; i < n; i++ {
 		ms.Tasks = append(ms.Tasks, genMultiTask(r, maxLen))
